@@ -189,8 +189,10 @@ pub fn gen(rng: &mut Rng, tier: &str, dist: &mut Dist) -> Vec<String> {
     // inputs longer than the 2 MiB uncompressed limit of one LZMA2 chunk: p incompressible bytes, then
     // zeros, so that the symbols are 273-byte matches and the size of the first chunk before its last
     // symbol is 2 MiB - 273 - r for a chosen residue r: p sweeps the residues around the limit
-    // (thorough: all 273), both encoder modes
-    let ps: Vec<usize> = if tier == "thorough" { (0..273).collect() } else { vec![236, 238, 239, 240, 242] };
+    // (thorough: every 7th residue and 234..244), both encoder modes
+    // (each case is a 6 MB command line: the thorough tier takes every 7th residue plus the neighbourhood
+    // of the limit, not all 273)
+    let ps: Vec<usize> = if tier == "thorough" { (0..273).step_by(7).chain(234..=244).collect() } else { vec![236, 238, 239, 240, 242] };
     for (i, p) in ps.iter().enumerate() {
         let mut data: Vec<u8> = (0..*p).map(|_| 1 + rng.below(255) as u8).collect();
         data.resize(*p + (2 << 20) + 70_000, 0);
